@@ -39,7 +39,7 @@ type params struct {
 
 func expected(method string, nonce int64) int64 {
 	switch method {
-	case "echo", "slow", "async", "peek", "pasync":
+	case "echo", "slow", "async", "peek", "pasync", "asyncin":
 		return nonce*3 + 1
 	case "reenter":
 		return (nonce+500000)*3 + 1
@@ -192,7 +192,7 @@ func drawStrategy(plan *simrt.Source, ngo int) simrt.Strategy {
 	return st
 }
 
-var methods = []string{"echo", "echo", "peek", "slow", "async", "reenter", "fail", "nosuch", "pasync", "badparams"}
+var methods = []string{"echo", "echo", "peek", "slow", "async", "reenter", "fail", "nosuch", "pasync", "badparams", "asyncin"}
 
 func (c39) NewRun(plan *simrt.Source, job *harn.Job) harn.Run {
 	r := &c39run{extra: map[string]int{}}
@@ -274,7 +274,7 @@ func (c39) NewRun(plan *simrt.Source, job *harn.Job) harn.Run {
 				}
 				if o.Kind == "call" || o.Kind == "notify" {
 					o.Method = methods[plan.Draw(len(methods))]
-					if o.Kind == "notify" && (o.Method == "async" || o.Method == "peek" || o.Method == "reenter" || o.Method == "pasync") {
+					if o.Kind == "notify" && (o.Method == "async" || o.Method == "peek" || o.Method == "reenter" || o.Method == "pasync" || o.Method == "asyncin") {
 						o.Method = "echo" // handlers must not answer notifications asynchronously / with results
 					}
 				}
@@ -749,6 +749,26 @@ func (ep *endpoint) handle(ctx context.Context, req *jsonrpc2.Request) (interfac
 			_ = err
 			r.sim.Probe("async-responded")
 		})
+		return nil, jsonrpc2.ErrAsyncResponse
+	case "asyncin":
+		// The asynchronous answer is delivered BEFORE the handler returns
+		// ErrAsyncResponse ("Respond must be called exactly once for any message
+		// for which a handler returns ErrAsyncResponse" does not say afterwards):
+		// by the handler itself when the result is already at hand, or by a worker
+		// the handler waits for.
+		id := req.ID
+		if p.Nonce%2 == 0 {
+			ep.conn.Respond(id, expected("asyncin", p.Nonce), nil)
+			r.sim.Probe("async-responded-inline-by-handler")
+			return nil, jsonrpc2.ErrAsyncResponse
+		}
+		done := make(chan struct{})
+		simrt.Go(ep.name+".responder-awaited", func() {
+			ep.conn.Respond(id, expected("asyncin", p.Nonce), nil)
+			simrt.Close("responder-awaited", done)
+		})
+		simrt.WaitAny("handler:asyncin", done)
+		r.sim.Probe("async-responded-by-awaited-worker")
 		return nil, jsonrpc2.ErrAsyncResponse
 	case "reenter":
 		n2 := p.Nonce + 500000
